@@ -9,6 +9,9 @@ def adapted_contracts(ctx, repo, prop):
     dsl.verify(ctx, repo, A.registry(), prop + ".full", [A.FULL + ".sample", A.FULL + ".log_p"], A.h_full, expect_covers=["full-sampled"])
     dsl.verify(ctx, repo, A.registry(), prop + ".log_normalize", "phyclone.utils.math.log_normalize", A.h_log_normalize, expect_covers=["normalised"])
     ctx.trust(*A.registry().assumed)
+    from contracts import c08_init as N
+
+    N.verify_all(ctx, repo, prop)
 
 
 def smc_contracts(ctx, repo, prop):
